@@ -3568,8 +3568,8 @@ class CaseNode(Node):
 
             actions, new_next = target.adopt_actions_from()
 
-            # adopt into our internal list
-            self.case_match_actions.update({sub_matches: actions})
+            # adopt into our internal list (a copy: some sources hand out tuples, and set_next extends this list later)
+            self.case_match_actions.update({sub_matches: list(actions)})
             if new_next is not None:
                 self.sub_matches[sub_matches] = new_next
             else:
